@@ -293,6 +293,12 @@ func (p *Pusher) push(ctx context.Context, method string) error {
 				mf.GetName(), err)
 		}
 	}
+	if closer, ok := enc.(expfmt.Closer); ok {
+		// This in particular takes care of the final "# EOF\n" line for OpenMetrics.
+		if err := closer.Close(); err != nil {
+			return fmt.Errorf("failed to finalize the encoding, error is %w", err)
+		}
+	}
 	req, err := http.NewRequestWithContext(ctx, method, p.fullURL(), buf)
 	if err != nil {
 		return err
